@@ -126,6 +126,13 @@ def wide_programs():
         out.append("local f(" + ", ".join("p%d=%d" % (i, i) for i in range(n // 2)) + ") = p0; f()")
         out.append("{ a: [" + ", ".join("'%s'" % ("e" * (i % 5 + 1)) for i in range(n)) + "], b: 1 }")
         out.append("if " + " && ".join("c%d" % i for i in range(n // 2)) + " then 1 else 2")
+    # calls nested in objects / lists / conditionals whose one-line form crosses the limit at some width
+    for n in range(14, 40, 2):
+        key, x, y = "k" * 30, "x" * n, "y" * n
+        out.append("{ %s: { b: ffff(%s, %s) } }" % (key, x, y))
+        out.append("[{ %s: gggg(%s, [%s]) }]" % (key, x, y))
+        out.append("{ %s: if cond then ffff(%s, %s) else null }" % (key, x, y))
+        out.append("local v = { %s: [hh(%s), ii(%s, 1)] }; v" % (key, x, y))
     return out
 
 
